@@ -1,7 +1,7 @@
 (* Pinned statements of the C15 theorems (must match Properties/C15.v). *)
 From Coq Require Import ZArith NArith List Bool String.
 Import ListNotations.
-Require Import TC.Resp.Utf8 TC.Resp.Parse TC.Resp.Cmd TC.Resp.CmdProofs TC.Server.Counters.
+Require Import TC.Resp.Utf8 TC.Resp.Parse TC.Resp.Cmd TC.Resp.CmdProofs TC.Server.Counters TC.Generated.Glue TC.Server.HandlerMetrics.
 Open Scope Z_scope.
 Require Import TC.Properties.C15.
 
@@ -21,3 +21,7 @@ Check C15_resp_denied_iff_denial_sent :
    exists cmd args rq l rm rs rt,
      v = Arr (Bulk (Some cmd) :: args) /\ bytes_eqb (upper cmd) (bytes_of_string "THROTTLE"%string) = true /\
      throttle rq = AOk false l rm rs rt /\ reply = Arr [Int 0; Int l; Int rm; Int rs; Int rt]).
+Check C15_http_handler_records : forall r, handler_mop HTTP_METRICS r = Some (expected_mop Http r).
+Check C15_grpc_handler_records : forall r, handler_mop GRPC_METRICS r = Some (expected_mop Grpc r).
+Check C15_handler_denied_iff_denial : forall t r,
+  In CDenied (micro (expected_mop t r)) <-> exists l rm rs rt, r = AOk false l rm rs rt.
